@@ -1,3 +1,316 @@
 import LocustModel.Proto
-/- Driver stub for C09 (replaced when the property's model is built). -/
-def main : IO Unit := LM.Proto.runDriver fun _ => "?\t?"
+import LocustModel.Store.Crash
+/-
+  Driver for C09.  Input line (space separated tokens):
+
+    crash <io> <cf> <ops> <trace> <at> <trunc> <nack> <infl> <mode> <rtrace> <j> <impl1> <impl>
+
+  ops    `;`-separated: `I:<t>=<row>.<row>:<t>=…` | `F` | `F:<t>=<id>.<id>><newid>:…` (observed compactions) | `R`
+  trace  `,`-separated callback tokens of the whole uncrashed run: `<l>.<file>`, l ∈ b c w s r (store) x X (delete),
+         file = `m` | `w<id>` | `p:<table>:<id>:all` | `w<id>~` (temp name in wal/)
+  at     crash point = number of callbacks seen (state after the first `at` effects); trunc = `-` | h | p | l
+         (`created` snapshots with a strict prefix of the bytes in the temp file: all `torn` in the model)
+  nack   number of ingest calls that had returned at the crash point; infl = 1 iff an ingest call was running
+  mode   live | open | reopen | flush | l2 (with rtrace = the child's recovery callbacks, j = prefix length)
+  impl1  output of the first open of the crash state;  impl = output of this case
+
+  Output:  <model prediction> TAB <OK | BAD reason> [TAB finding id]
+-/
+namespace LM.DrvC09
+open LM LM.Proto LM.Crash
+
+/-! ### tokens -/
+
+def baseTok : Base → String
+  | .catalogue => "m"
+  | .wal k => s!"w{k}"
+  | .part t id => s!"p:{t}:{id}:all"
+
+def pathTok (p : Path) : String := baseTok p.base ++ (if p.tmp then "~" else "")
+
+def effTok : Eff → String
+  | .mkdir b => "b." ++ baseTok b
+  | .create b => "c." ++ baseTok b
+  | .write b _ => "w." ++ baseTok b
+  | .sync b => "s." ++ baseTok b
+  | .rename b => "r." ++ baseTok b
+  | .rmBegin p => "x." ++ pathTok p
+  | .remove p => "X." ++ pathTok p
+
+/-- paths an effect may create (for directory listings) -/
+def effKeys : Eff → List Path
+  | .create b => [tmpP b]
+  | .rename b => [finP b]
+  | _ => []
+
+/-! ### dump -/
+
+def rowLt (a b : String) : Bool :=
+  match a.toInt?, b.toInt? with
+  | some x, some y => x < y
+  | _, _ => a < b
+
+def insertSorted (lt : String → String → Bool) (x : String) : List String → List String
+  | [] => [x]
+  | y :: ys => if lt x y then x :: y :: ys else y :: insertSorted lt x ys
+
+def sortStrings (lt : String → String → Bool) (xs : List String) : List String := xs.foldr (insertSorted lt) []
+
+def dumpContent (tables : List Tbl) (content : Tbl → List Row) : String :=
+  let ts := sortStrings (fun a b => a < b) tables.eraseDups
+  let parts := ts.filterMap fun t =>
+    let rows := content t
+    if rows.isEmpty then none else some (t ++ "=" ++ ",".intercalate (sortStrings rowLt rows))
+  if parts.isEmpty then "empty" else ";".intercalate parts
+
+def memTables (m : Mem) : List Tbl := (m.parts.map (·.pm.table) ++ tablesOfReqs m.pending).eraseDups
+
+def dumpMem (m : Mem) : String := dumpContent (memTables m) m.content
+
+def outcomeTok : Outcome → String
+  | .hang => "hang"
+  | .panic => "panic"
+
+/-! ### ingest_efficient's catalogue rows (`create_if_empty_no_ingest`, `new_column_names`) — harness schema: columns id, v -/
+
+def userCols : List String := ["id", "v"]
+
+def augment (m : Mem) (user : List Share) : Req :=
+  let metaRows := user.flatMap fun s =>
+    (if (m.content s.table).isEmpty then [s.table] else []) ++
+    (if (m.content ("_meta_columns_" ++ s.table)).isEmpty then ["_meta_columns_" ++ s.table] else [])
+  let colShares := user.filterMap fun s =>
+    let known := m.content ("_meta_columns_" ++ s.table)
+    let newc := userCols.filter (fun c => ¬ c ∈ known)
+    if newc.isEmpty then none else some (⟨"_meta_columns_" ++ s.table, newc⟩ : Share)
+  ⟨user ++ (if metaRows.isEmpty then [] else [⟨"_meta_tables", metaRows⟩]) ++ colShares⟩
+
+/-! ### parsing -/
+
+inductive POp where
+  | ingest (shares : List Share)
+  | flush (comp : List (Tbl × List Nat × Nat))
+  | restart
+
+def parseShare (s : String) : Option Share :=
+  match s.splitOn "=" with
+  | [t, rows] => some ⟨t, (rows.splitOn ".").filter (· ≠ "")⟩
+  | _ => none
+
+def parseComp (s : String) : Option (Tbl × List Nat × Nat) :=
+  match s.splitOn "=" with
+  | [t, rest] =>
+      match rest.splitOn ">" with
+      | [ids, new] => do
+          let ids ← (ids.splitOn ".").mapM (·.toNat?)
+          let n ← new.toNat?
+          pure (t, ids, n)
+      | _ => none
+  | _ => none
+
+def parseOp (s : String) : Option POp :=
+  match s.splitOn ":" with
+  | ["R"] => some .restart
+  | "F" :: comps => (comps.mapM parseComp).map .flush
+  | "I" :: shares => (shares.mapM parseShare).map .ingest
+  | _ => none
+
+def parseTrace (s : String) : List String := if s = "[]" then [] else s.splitOn ","
+
+/-! ### simulation of the uncrashed run against the observed trace -/
+
+structure Sim where
+  fs : FS := FS.empty
+  keys : List Path := []
+  mem : Mem := Mem.fresh
+  consumed : Nat := 0
+  crash : Option (FS × List Path) := none     -- state after `at` effects
+  at_ : Nat
+  obs : Array String
+
+def Sim.applyOne (s : Sim) (e : Eff) : Sim :=
+  let fs := applyEff s.fs e
+  let keys := effKeys e ++ s.keys
+  let n := s.consumed + 1
+  { s with fs := fs, keys := keys, consumed := n, crash := if n = s.at_ then some (fs, keys) else s.crash }
+
+/-- Match the tasks of one phase against the observed tokens.  `conc = false`: tasks run one after the other in some order;
+    `conc = true`: any interleaving.  Stops quietly when the observed trace ends. -/
+partial def runPool (s : Sim) (tasks : List (List Eff)) (conc : Bool) (cur : Option Nat) : Except String Sim :=
+  if tasks.all (·.isEmpty) then .ok s
+  else if s.consumed ≥ s.obs.size then .ok s
+  else
+    let tok := s.obs[s.consumed]!
+    let idxs := List.range tasks.length
+    let cand := idxs.filter fun i =>
+      match tasks[i]! with
+      | e :: _ => effTok e == tok && (conc || cur.isNone || cur == some i)
+      | [] => false
+    match cand with
+    | i :: _ =>
+        match tasks[i]! with
+        | e :: rest =>
+            let tasks' := tasks.set i rest
+            runPool (s.applyOne e) tasks' conc (if rest.isEmpty then none else some i)
+        | [] => .error "internal"
+    | [] => .error s!"trace-mismatch@{s.consumed + 1}:{tok}"
+
+def runPhases (s : Sim) (phs : List Phase) (io : Nat) : Except String Sim :=
+  phs.foldlM (fun s ph =>
+    let conc := match ph.kind with
+      | .persist | .gcParts | .gcWal => io > 1
+      | _ => false
+    runPool s (ph.tasks.map (·.effs)) conc none) s
+
+def listing (fs : FS) (keys : List Path) : List Path :=
+  keys.eraseDups.filter fun p => inWalDir p && (fs p).isSome
+
+/-- Recovery as a program: scan, deletions (effects), new memory. -/
+def simRecover (s : Sim) (io : Nat) : Except String Sim :=
+  match recover s.fs (listing s.fs s.keys) with
+  | .error o => .error ("open-" ++ outcomeTok o)
+  | .ok (m, dels) => do
+      let s ← runPhases s [recoverPhase dels] io
+      pure { s with mem := m }
+
+def simOp (io : Nat) (s : Sim) (op : POp) : Except String Sim :=
+  if s.consumed ≥ s.obs.size ∧ s.obs.size > 0 ∧ false then .ok s else
+  match op with
+  | .ingest user =>
+      let r := augment s.mem user
+      let (phs, m') := ingestPlan s.mem r
+      do let s ← runPhases s phs io
+         pure { s with mem := m' }
+  | .flush comp =>
+      match flushPlan s.mem (comp.map fun (t, ids, _) => (t, ids)) with
+      | none => .error "bad-compaction"
+      | some (phs, m') =>
+          do let s ← runPhases s phs io
+             pure { s with mem := m' }
+  | .restart => simRecover s io
+
+def simulate (io : Nat) (ops : List POp) (obs : List String) (at_ : Nat) : Except String Sim := do
+  let s0 : Sim := { at_ := at_, obs := obs.toArray }
+  let s0 := { s0 with crash := if at_ = 0 then some (s0.fs, s0.keys) else none }
+  let s ← simRecover s0 io
+  let s ← ops.foldlM (simOp io) s
+  if s.consumed < s.obs.size then .error s!"trace-mismatch@{s.consumed + 1}:{s.obs[s.consumed]!}" else pure s
+
+/-! ### second level: recovery of a crash state, crashed again -/
+
+/-- Apply the first `j` effects of the observed recovery trace, checking that it is a legal interleaving of the predicted
+    deletions. -/
+def recoveryPrefix (fs : FS) (dels : List Path) (rtrace : List String) (j : Nat) : Except String FS := do
+  let s0 : Sim := { fs := fs, at_ := j, obs := rtrace.toArray, crash := if j = 0 then some (fs, []) else none }
+  let s ← runPool s0 ((recoverPhase dels).tasks.map (·.effs)) true none
+  if s.consumed < s.obs.size then .error s!"rtrace-mismatch@{s.consumed + 1}" else
+  match s.crash with
+  | some (fs', _) => pure fs'
+  | none => .error "rtrace-short"
+
+/-- A flush of the recovered database (no compaction decision is observed: only completion and content matter).
+    `remove_file` on a missing file fails and `delete(..).unwrap()` panics on the flush thread. -/
+def flushCompletes (fs : FS) (m : Mem) : Bool :=
+  (List.range' m.cursor (m.nextWal - m.cursor)).all fun k => (fs (finP (.wal k))).isSome
+
+/-! ### specification side: what the acknowledged requests contain -/
+
+/-- The requests as the client sees them, with the catalogue rows of tables seen for the first time. -/
+def specReqs (ops : List POp) : List Req :=
+  let step (acc : List Req × List Tbl) (op : POp) : List Req × List Tbl :=
+    match op with
+    | .ingest user =>
+        let (reqs, seen) := acc
+        let newT := (user.map (·.table)).eraseDups.filter (fun t => ¬ t ∈ seen)
+        let metaRows := newT.flatMap fun t => [t, "_meta_columns_" ++ t]
+        let colShares := newT.map fun t => (⟨"_meta_columns_" ++ t, userCols⟩ : Share)
+        (reqs ++ [⟨user ++ (if metaRows.isEmpty then [] else [⟨"_meta_tables", metaRows⟩]) ++ colShares⟩], seen ++ newT)
+    | _ => acc
+  (ops.foldl step ([], [])).1
+
+def dumpReqs (rs : List Req) : String := dumpContent (tablesOfReqs rs) (ackedRows rs)
+
+def judge (ops : List POp) (nack infl : Nat) (mode impl1 impl : String) : String :=
+  let reqs := specReqs ops
+  let a := dumpReqs (reqs.take nack)
+  let b := if infl = 1 then dumpReqs (reqs.take (nack + 1)) else a
+  let okContent (d : String) : Bool := d == a || d == b
+  if mode = "live" then (if impl == a then "OK" else "BAD live content differs from the acknowledged requests")
+  else if impl == "hang" then "BAD recovery does not terminate"
+  else if impl == "panic" then "BAD recovery panics"
+  else if mode = "flush" then
+    match impl.splitOn "|" with
+    | [d1, fl, d2, d3] =>
+        if ¬ okContent d1 then "BAD content after recovery is neither acked nor acked+inflight"
+        else if fl ≠ "ok" then "BAD flush after recovery fails: " ++ fl
+        else if d2 ≠ d1 ∨ d3 ≠ d1 then "BAD content changes after a post-recovery flush"
+        else "OK"
+    | _ => "BAD malformed"
+  else if ¬ okContent impl then "BAD content after recovery is neither acked nor acked+inflight"
+  else if (mode = "reopen" ∨ mode = "l2") ∧ impl ≠ impl1 then "BAD recovering again changed the content"
+  else "OK"
+
+/-! ### known finding: a crash prefix leaves a file in wal/ whose name does not end in `.wal` -/
+
+def walTempPresent (fs : FS) (keys : List Path) : Bool :=
+  keys.any fun p => inWalDir p && p.tmp && (fs p).isSome
+
+def findingId : String := "C09-wal-temp"
+
+/-! ### one case -/
+
+/-- `delete_wal_segments`: with `io_threads > 1` the failing `delete(..).unwrap()` runs in a pool job (swallowed panic, the
+    flush waits forever); otherwise it panics on the flush thread and `force_flush` fails in the caller. -/
+def flushFailTok (io : Nat) : String := if io > 1 then "hang" else "panic"
+
+def predict (io : Nat) (ops : List POp) (obs : List String) (at_ : Nat) (mode : String) (rtrace : List String) (j : Nat) :
+    String × Bool :=
+  match simulate io ops obs at_ with
+  | .error e => (e, false)
+  | .ok s =>
+      if mode = "live" then (dumpMem s.mem, false) else
+      match s.crash with
+      | none => ("no-crash-state", false)
+      | some (fs, keys) =>
+          let known := walTempPresent fs keys
+          let ls := listing fs keys
+          match recover fs ls with
+          | .error o => (outcomeTok o, known)
+          | .ok (m, dels) =>
+              let d1 := dumpMem m
+              if mode = "open" then (d1, known)
+              else if mode = "reopen" then
+                let fs' := applyEffs fs ((recoverPhase dels).tasks.flatMap (·.effs))
+                match recover fs' (listing fs' keys) with
+                | .error o => (outcomeTok o, known)
+                | .ok (m', _) => (dumpMem m', known)
+              else if mode = "l2" then
+                match recoveryPrefix fs dels rtrace j with
+                | .error e => (e, known)
+                | .ok fs' =>
+                    match recover fs' (listing fs' keys) with
+                    | .error o => (outcomeTok o, known)
+                    | .ok (m', _) => (dumpMem m', known)
+              else if mode = "flush" then
+                let fs' := applyEffs fs ((recoverPhase dels).tasks.flatMap (·.effs))
+                if flushCompletes fs' m then (s!"{d1}|ok|{d1}|{d1}", known)
+                else (s!"{d1}|{flushFailTok io}|?|?", known)
+              else ("bad-mode", known)
+
+def step (line : String) : String :=
+  match splitTokens line with
+  | ["crash", io, _cf, ops, trace, at_, _trunc, nack, infl, mode, rtrace, j, impl1, impl] =>
+      match io.toNat?, (ops.splitOn ";").mapM parseOp, at_.toNat?, nack.toNat?, infl.toNat?, j.toNat? with
+      | some io, some ops, some at_, some nack, some infl, some j =>
+          let (model, known) := predict io ops (parseTrace trace) at_ mode (parseTrace rtrace) j
+          let spec := judge ops nack infl mode impl1 impl
+          -- the post-recovery flush of a state inside the finding's region: the model predicts the failure but not the dumps after it
+          let model := if model.endsWith "|?|?" ∧ (impl.splitOn "|").length = 4 ∧ (impl.splitOn "|").take 2 = (model.splitOn "|").take 2
+                          then impl else model
+          model ++ "\t" ++ spec ++ (if known then "\t" ++ findingId else "")
+      | _, _, _, _, _, _ => "bad-op\tbad-op"
+  | _ => "bad-op\tbad-op"
+
+end LM.DrvC09
+
+def main : IO Unit := LM.Proto.runDriver LM.DrvC09.step
